@@ -100,7 +100,18 @@ func (f *Frame) HasImage() bool {
 // toNRGBA converts any image.Image to *image.NRGBA.
 func toNRGBA(src image.Image) *image.NRGBA {
 	if nrgba, ok := src.(*image.NRGBA); ok {
-		return nrgba
+		r := nrgba.Rect
+		if r.Min.X == 0 && r.Min.Y == 0 && nrgba.Stride == 4*r.Dx() {
+			return nrgba
+		}
+		// Sub-image view or padded stride: callers index the result as a tight
+		// image at the origin, so copy the visible rows.
+		dst := image.NewNRGBA(image.Rect(0, 0, r.Dx(), r.Dy()))
+		for y := 0; y < r.Dy(); y++ {
+			off := y * nrgba.Stride
+			copy(dst.Pix[y*dst.Stride:(y+1)*dst.Stride], nrgba.Pix[off:off+4*r.Dx()])
+		}
+		return dst
 	}
 	b := src.Bounds()
 	dst := image.NewNRGBA(image.Rect(0, 0, b.Dx(), b.Dy()))
